@@ -31,6 +31,19 @@ CHECKS = {
          "Every generated error sequence is merged under every parenthesisation with fresh originals and judged by an oracle computed from the case description; HTTP/gRPC status tables are enumerated exhaustively (8 flag combinations x names).",
          "Trusts the Go runtime, errors.Is/As, grpc status package. Message separator not asserted."),
 }
+
+E1TECH = "runtime monitoring: generated designs run through the real goa generators, generated client/server compiled and driven by reflection with taps (client_in, wire_req, auth, stub_in, wire_resp, client_out); offline oracle from the spec (design intent)"
+E1NOTE = "Trusts the lab's spec printer/value builder, net/http, the Go compiler; designs whose generated code does not compile are excluded (C01); transport-imposed value alphabets for headers/cookies."
+CHECKS.update({
+ "C02": (E1, E1TECH + "; expected stub payload = sent payload + defaults with documented ambiguity classes", "Valid payloads over the boundary value classes are sent through the generated client, the wire (serialise + re-parse) and the generated server to a recording stub; every difference between the tree sent and the tree the service method received is a violation.", E1NOTE),
+ "C03": (E1, E1TECH + "; scripted results returned by the stub compared with the client's return value and the designed status", "The stub returns scripted valid results (tagged alternatives selected by value); status code, header placement and the value returned by the generated client are compared with the script.", E1NOTE),
+ "C04": (E1, E1TECH + "; reference validator (written from the DSL documentation) decides validity of boundary probes; stub-invoked iff valid", "Boundary probes on both sides of every validation rule, removed required attributes and malformed wire encodings are sent through the generated client and hand-encoded; the reference validator decides validity; results violating the result's constraints are returned to the generated client.", E1NOTE + " Formats judged by construction class (C17 owns exactness)."),
+ "C05": (E1, E1TECH + "; literal status table and declared error responses from the spec", "Every declared error (default type: 8 flag combinations, wrapped/joined; custom types), undeclared service errors, plain Go errors and hand-encoded decode failures are provoked; status, goa-error header, body, WriteHeader count and the client's error are judged.", E1NOTE + " Nil error formatter (as goa example passes)."),
+ "C06": (E1, E1TECH + "; recording Auther scripted by accept/reject vectors; reference evaluation 'exists requirement, all schemes accept'", "Every accept/reject vector over the schemes of the effective requirements, with credentials from class alphabets, explicit/implicit mappings, NoSecurity and inheritance; callbacks' arguments, scopes and the method's execution are judged.", E1NOTE),
+ "C08": (E1, E1TECH + "; reference projection from the spec's views; response relabelling at the tap", "Per defined view the stub returns (result, view); wire members, goa-view header and the client's value are compared with the reference projection; responses relabelled with undefined views must be refused.", E1NOTE),
+ "C20": (E1, "Go race detector + runtime monitoring: the generated server built with -race is driven by 2/16/64 client goroutines (PRNG-chosen yields inside the stub); every concurrent exchange must be observationally equal to the sequential baseline of the same case; helper hammer (muxer, encoders, error encoder, pattern validator, samplers) with per-operation expected results; race log parsed", "Mixed valid/invalid/error cases against one mounted server per design, 3 rounds per concurrency level, overlap measured (max in flight, overlapping class pairs); race reports de-duplicated by function pair.", "A clean race-detector run means no race on the schedules exercised. " + E1NOTE),
+})
+
 NOT_BUILT = "check not built yet in this session (planned, DESIGN.md §11); not claimed until it exists and is silent on the unchanged tree"
 NA = {}
 def hook_commits():
